@@ -129,11 +129,36 @@ func ruleC14(c *Ctx) {
 			wantB64 := "(*encoding/base64.Encoding).EncodeToString(encoding/base64.StdEncoding, (*bytes.Buffer).Bytes(" + ap(buf) + "))"
 			// ---- query assembly
 			qss := findCall(t, "(*net/url.URL).Query")
-			if len(qss) != 1 || qss[0].Args[0].Key() != u.Key() {
+			var qs Val
+			if len(qss) == 1 && qss[0].Args[0].Key() == u.Key() {
+				qs = qss[0].Res[0]
+			} else if len(qss) == 0 {
+				// an endpoint without a query string: Query() of it is an empty, non-nil map — which the path may build itself
+				emptyQuery := false
+				for _, f := range t.St.facts {
+					if b, isB := f.Cond.(*BinV); isB && b.Op == token.EQL && f.Pol {
+						if l, isL := b.X.(*LoadV); isL {
+							if fa, isFA := l.Addr.(*FieldAddrV); isFA && fa.Name == "RawQuery" && fa.X.Key() == u.Key() {
+								if sv, isC := constString(b.Y); isC && sv == "" {
+									emptyQuery = true
+								}
+							}
+						}
+					}
+				}
+				if emptyQuery {
+					for _, e := range findCall(t, "(net/url.Values).Add") {
+						if a, isA := e.Args[0].(*AllocV); isA && a.Comment == "makemap" {
+							qs = a
+							break
+						}
+					}
+				}
+			}
+			if qs == nil {
 				c.bad("C14-R5", fname, "query derives from the parsed endpoint ["+label+"]", pos, "query values do not come from parsedURL.Query(): existing IdP parameters are lost")
 				continue
 			}
-			qs := qss[0].Res[0]
 			adds := map[string]*Event{}
 			var addOrder []string
 			for _, e := range findCall(t, "(net/url.Values).Add") {
